@@ -402,7 +402,7 @@ impl<'tcx> Cx<'tcx> {
                             o.push(("e", self.expr(inner)));
                             // the Break arm: `return from_residual(r)`; its type is the function's
                             // (or closure's / try block's) result type
-                            if let Some(arm) = arms.get(1) {
+                            if let Some(arm) = arms.iter().find(|a| matches!(self.strip_drop_temps(a.body).kind, ExprKind::Ret(_) | ExprKind::Break(..))) {
                                 let mut b = self.strip_drop_temps(arm.body);
                                 if let ExprKind::Ret(Some(x)) | ExprKind::Break(_, Some(x)) = b.kind {
                                     b = x;
